@@ -3,8 +3,8 @@ CONSTANTS
   Dirs = {"launch", "a", "b"}
   Launch = "launch"
   MaxConns = 3
-  OneShot = FALSE
-  Fix_RestoreOneShot = TRUE
+  OneShot = TRUE
+  Fix_RestoreOneShot = FALSE
   Fix_RestorePerConnection = TRUE
 INVARIANT TypeOK
 INVARIANT EveryConnectionStartsInLaunchDir
